@@ -27,6 +27,16 @@ REPLAYS = os.path.join(BUILD, "replays") if ALT else os.path.join(VERIF, "replay
 NCPU = os.cpu_count() or 4
 
 
+def _die_with_parent():
+    """preexec_fn: the child gets SIGKILL when this process dies (no orphaned TLC / harness)."""
+    try:
+        import ctypes
+        import signal
+        ctypes.CDLL("libc.so.6").prctl(1, signal.SIGKILL)
+    except Exception:
+        pass
+
+
 class ToolError(Exception):
     """Anything that is not a verdict about the property (exit status 2)."""
 
@@ -147,7 +157,7 @@ class Harness:
         env = dict(os.environ)
         env.pop("RUST_BACKTRACE", None)
         self.p = subprocess.Popen([self.path], stdin=subprocess.PIPE, stdout=subprocess.PIPE,
-                                  stderr=subprocess.DEVNULL, env=env)
+                                  stderr=subprocess.DEVNULL, env=env, preexec_fn=_die_with_parent)
 
     def _kill(self):
         if self.p is not None:
@@ -416,7 +426,7 @@ def run_tlc(module, cfg=None, workers=8, simulate=None, depth=None, timeout=1800
     res.cmd = " ".join(cmd)
     t0 = time.time()
     p = subprocess.Popen(cmd, cwd=gendir or SPEC, env=env, stdout=subprocess.PIPE, stderr=subprocess.STDOUT,
-                         text=True, errors="replace")
+                         text=True, errors="replace", preexec_fn=_die_with_parent)
     timer = threading.Timer(timeout, p.kill)
     timer.start()
     errlines = []
@@ -471,6 +481,8 @@ def run_tlc(module, cfg=None, workers=8, simulate=None, depth=None, timeout=1800
                     in_err = False
     finally:
         timer.cancel()
+        if p.poll() is None and sys.exc_info()[0] is not None:
+            p.kill()
         rc = p.wait()
     res.wall = time.time() - t0
     res.errtext = "\n".join(errlines)
